@@ -3,5 +3,4 @@ CONSTANTS
   FixedTexts <- FixedA
   TraceFile = "trace.ndjson"
   VerdictFile = "verdict.ndjson"
-POSTCONDITION TraceAccepted
 CHECK_DEADLOCK FALSE
